@@ -119,8 +119,7 @@ def class_pool(fmt):
     sign = 1 << (bits - 1)
     expmask = ((1 << eb) - 1) << mb
     q = 1 << (mb - 1)
-    pos = [0, 1, (1 << mb) - 1, 1 << mb, tob(1.0), tob(1.5), tob(3.0), expmask - 1, expmask, expmask | q, expmask | q | 5, expmask | 1,
-           expmask | (1 << 33 if fmt == "f64" else 1 << 12)]
+    pos = [0, 1, 1 << mb, tob(1.0), tob(1.5), expmask - 1, expmask, expmask | q, expmask | q | 5, expmask | 1]
     return [x for v in pos for x in (v, v | sign)]
 
 
